@@ -2,9 +2,9 @@
     undefined nonterminals and within-word expressions over the same kinds of pieces.
 
     As [BashMeaningMix], with the within-word functions of the script treated by [WordSimGen]: in
-    matching mode they compute the greedy reading [KnownC01.gaccepts], which is one of the splittings
-    of [Meaning.waccepts] ([WordGen.gaccepts_waccepts]) and, outside [KnownC01.greedy_shadow], the
-    only one that matters; in completing mode they offer [Meaning.wproper]. *)
+    matching mode they decide [Meaning.waccepts] (the script tries the undefined nonterminal of a
+    point first -- the greedy-shadow fix -- and otherwise follows the unique tokenisation:
+    [WordGen.saccepts_waccepts]); in completing mode they offer [Meaning.wproper]. *)
 From CG Require Import Base.Prelude Model.Ast Model.Dfa Model.Tables Model.Glob Model.BashSem.
 From CG Require Import Spec.Lang Spec.Rx Spec.Meaning Spec.Domain Spec.DfaEquiv Spec.Invocations Spec.KnownC01.
 From CG Require Import Proofs.RxFacts Proofs.MeaningFacts Proofs.MeaningLevels Proofs.TreeFacts Proofs.DomainFacts.
@@ -116,18 +116,6 @@ Section SubLoops2.
       + intros [sid' [[E | Hin] Hp]]; [subst sid'; left; exact Hp | right; exists sid'; split; assumption].
   Qed.
 End SubLoops2.
-
-Lemma shadow_step_false en S w x0 l0 k :
-  ~ lit_expected (moves S) w -> shadow_step en S w = false -> In (LSub x0 l0, k) (moves S) ->
-  waccepts en x0 w = true -> gaccepts en x0 w = true.
-Proof.
-  intros Hnl Hs Hin Hacc. unfold shadow_step in Hs. rewrite (proj2 (lit_next_nil w (moves S)) Hnl) in Hs.
-  destruct (gaccepts en x0 w) eqn:Eg; [reflexivity | exfalso].
-  assert (Ht : existsb (fun ak : leaf * rx leaf => match fst ak with
-                         | LSub x _ => waccepts en x w && negb (gaccepts en x w) | _ => false end) (moves S) = true).
-  { apply existsb_exists. exists (LSub x0 l0, k). split; [exact Hin |]. cbn [fst]. rewrite Hacc, Eg. reflexivity. }
-  congruence.
-Qed.
 
 Section All.
   Variables (c : cdfa) (e : expr) (om : list (string * string)) (os : list (N * list (string * string)))
@@ -294,7 +282,7 @@ Section All.
       /\ subword_tables (a_subwords a) id = Some Tw
       /\ (forall pi', script_id (a_subwords a) pi' = Some id -> pi' = pi)
       /\ (forall rt, rtrans d = Ok rt -> assocN pi (get_subwords rt 0) = Some id)
-      /\ (forall w log, exists log', subword_matches Repaired a benv Tw (BashSem.sub_accepting a id) w log = Ok (gaccepts en x0 w, log'))
+      /\ (forall w log, exists log', subword_matches Repaired a benv Tw (BashSem.sub_accepting a id) w log = Ok (waccepts en x0 w, log'))
       /\ (exists reply, (forall log, exists log', subword_complete Repaired a benv Tw p log = Ok (reply, log'))
                         /\ forall o, In o reply <-> In o (wproper en x0 p)).
   Proof.
@@ -461,7 +449,6 @@ Section All.
 
   (** the within-word part of the walk *)
   Lemma walk_sub s S w log : rel s S -> ~ lit_expected (moves S) w -> ambiguous_step en S w = false ->
-    shadow_step en S w = false ->
     exists r log1, (match assocN s (a_subtrans a) with
                | Some row => do srow <- sub_row (a_subwords a) row; top_sub_loop Repaired a benv (assoc_of srow) w log
                | None => Ok (None, log)
@@ -471,7 +458,7 @@ Section All.
                  | None => forall x0 l0 k, In (LSub x0 l0, k) (moves S) -> waccepts en x0 w = false
                  end.
   Proof.
-    intros R Hnl Hamb Hsh. destruct (assocN s (a_subtrans a)) as [row |] eqn:Erow.
+    intros R Hnl Hamb. destruct (assocN s (a_subtrans a)) as [row |] eqn:Erow.
     - destruct (sub_row_spec (a_subwords a) row) as [srow [Hsrow Hf]].
       { intros pi to Hin. destruct (row_entry s S row pi to R Erow Hin) as [lvl [x0 [k0 [Htr [Hmv Hl]]]]].
         destruct (sub_match s S pi lvl to x0 k0 R Htr Hmv Hl) as [id [Tw [Hid _]]]. exists id. exact Hid. }
@@ -479,7 +466,7 @@ Section All.
       assert (Hentry : forall sid to, In (sid, to) (assoc_of srow) ->
                  exists pi lvl x0 k0 Tw, trans_on d s (ISub pi lvl) to /\ In (LSub x0 lvl, k0) (moves S) /\ lrel c (LSub x0 lvl) (ISub pi lvl)
                    /\ subword_tables (a_subwords a) sid = Some Tw
-                   /\ forall log', exists log'', subword_matches Repaired a benv Tw (BashSem.sub_accepting a sid) w log' = Ok (gaccepts en x0 w, log'')).
+                   /\ forall log', exists log'', subword_matches Repaired a benv Tw (BashSem.sub_accepting a sid) w log' = Ok (waccepts en x0 w, log'')).
       { intros sid to Hin. apply assoc_of_sub in Hin. destruct (Forall2_in_r _ _ _ _ Hf Hin) as [[pi to'] [Hrow [Eto Hsid]]].
         cbn [fst snd] in Eto, Hsid. subst to'.
         destruct (row_entry s S row pi to R Erow Hrow) as [lvl [x0 [k0 [Htr [Hmv Hl]]]]].
@@ -487,18 +474,15 @@ Section All.
         rewrite Hsid in Hid. inversion Hid; subst id. exists pi, lvl, x0, k0, Tw.
         split; [exact Htr | split; [exact Hmv | split; [exact Hl | split; [exact HT | intro log'; apply Hm]]]]. }
       destruct (top_sub_loop_spec2 a benv w (assoc_of srow) log) as [r [log1 [Hr Hspec]]].
-      { intros sid to Hin. destruct (Hentry sid to Hin) as [pi [lvl [x0 [k0 [Tw [_ [_ [_ [HT Hm]]]]]]]]]. exists Tw, (gaccepts en x0 w). split; assumption. }
+      { intros sid to Hin. destruct (Hentry sid to Hin) as [pi [lvl [x0 [k0 [Tw [_ [_ [_ [HT Hm]]]]]]]]]. exists Tw, (waccepts en x0 w). split; assumption. }
       exists r, log1. split; [exact Hr |]. destruct r as [to |].
       + destruct Hspec as [sid [Tw' [Hin [HT' Hm']]]].
         destruct (Hentry sid to Hin) as [pi [lvl [x0 [k0 [Tw [Htr [Hmv [Hl [HT Hm]]]]]]]]].
         rewrite HT in HT'. inversion HT'; subst Tw'.
-        assert (Hg : gaccepts en x0 w = true).
+        assert (Hacc : waccepts en x0 w = true).
         { destruct (Hm []) as [l1 E1]. destruct (Hm' []) as [l2 E2]. rewrite E2 in E1. inversion E1. reflexivity. }
-        destruct (move_facts s S _ k0 R Hmv) as [_ [Hleaf _]]. destruct (sub_word_facts x0 lvl Hleaf) as [_ [Hwd _]].
-        pose proof (gaccepts_waccepts en x0 Hwd w Hg) as Hacc.
         apply (rel_step_chosen s S w (LSub x0 lvl) k0 _ to R Hamb Hmv (conj Hacc Hnl) Hl Htr).
       + intros x0 l0 k Hin. destruct (waccepts en x0 w) eqn:Hacc; [exfalso | reflexivity].
-        pose proof (shadow_step_false en S w x0 l0 k Hnl Hsh Hin Hacc) as Hg.
         destruct (item_sub_trans s S x0 l0 k R Hin) as [pi [t [Hl Htr]]].
         assert (Hrow : In (pi, t) row) by (apply (subtrans_row c om os nd a Hwf Hall s row Erow pi t); eauto).
         destruct (Forall2_in_l _ _ _ _ Hf Hrow) as [[sid t'] [Hsrow' [Et Hsid]]]. cbn [fst snd] in Et, Hsid. subst t'.
@@ -508,7 +492,7 @@ Section All.
         destruct (Hspec sid to' Hin') as [Tw' [HT' Hm']].
         destruct (sub_match s S pi l0 t x0 k R Htr Hin Hl) as [id [Tw [Hid [HT [_ [_ [Hm _]]]]]]].
         rewrite Hsid in Hid. inversion Hid; subst id. rewrite HT in HT'. inversion HT'; subst Tw'.
-        destruct (Hm w []) as [l1 E1]. destruct (Hm' []) as [l2 E2]. rewrite E2 in E1. rewrite Hg in E1. discriminate.
+        destruct (Hm w []) as [l1 E1]. destruct (Hm' []) as [l2 E2]. rewrite E2 in E1. rewrite Hacc in E1. discriminate.
     - exists None, log. split; [reflexivity |]. intros x0 l0 k Hin. exfalso.
       destruct (item_sub_trans s S x0 l0 k R Hin) as [pi [t [_ Htr]]].
       apply (subtrans_none c om os nd a Hwf Hall s pi l0 t Erow Htr).
@@ -634,26 +618,25 @@ Section All.
   Qed.
 
   (** *** the walk over the complete words *)
-  Theorem walk_words : forall ws s S log, rel s S -> ambiguous_run en S ws = false -> greedy_shadow_from en S ws = false ->
+  Theorem walk_words : forall ws s S log, rel s S -> ambiguous_run en S ws = false ->
     exists log',
       match run en S ws with
       | [] => walk Repaired a benv s ws log = Ok (None, log')
       | _ :: _ => exists t, walk Repaired a benv s ws log = Ok (Some t, log') /\ rel t (run en S ws)
       end.
   Proof.
-    induction ws as [| w rest IH]; intros s S log R Hamb Hgs.
+    induction ws as [| w rest IH]; intros s S log R Hamb.
     - exists log. cbn [run fold_left walk]. destruct S as [| k0 S0] eqn:ES; [exfalso; apply (rel_nonempty s [] R); reflexivity |].
       exists s. split; [reflexivity | exact R].
     - cbn [ambiguous_run] in Hamb. apply orb_false_iff in Hamb. destruct Hamb as [Hamb1 Hamb2].
-      cbn [greedy_shadow_from] in Hgs. apply orb_false_iff in Hgs. destruct Hgs as [Hgs1 Hgs2].
       change (run en S (w :: rest)) with (run en (step en S w) rest).
       cbn [walk]. fold (lit_lookup T s w). pose proof (walk_lit s S w R Hamb1) as Hlit.
       destruct (lit_lookup T s w) as [to |].
-      + destruct Hlit as [R1 _]. apply (IH to _ log R1 Hamb2 Hgs2).
-      + destruct (walk_sub s S w log R Hlit Hamb1 Hgs1) as [r [log0 [Hr Hsw]]].
+      + destruct Hlit as [R1 _]. apply (IH to _ log R1 Hamb2).
+      + destruct (walk_sub s S w log R Hlit Hamb1) as [r [log0 [Hr Hsw]]].
         match goal with |- context [obind ?X _] => assert (ES : X = Ok (r, log0)) by exact Hr; rewrite ES end. cbn [obind].
         destruct r as [to |].
-        * destruct Hsw as [R1 _]. apply (IH to _ log0 R1 Hamb2 Hgs2).
+        * destruct Hsw as [R1 _]. apply (IH to _ log0 R1 Hamb2).
         * destruct (cmd_part s S w (match rest with [] => true | _ => false end) log0 R) as [r2 [log1 [Hc Hcmd]]].
           match goal with |- context [obind ?X _] =>
             assert (EE : X = Ok (match r2 with Some to => WNext to | None => WNone end, log1)) by exact Hc; rewrite EE
@@ -661,7 +644,7 @@ Section All.
           -- destruct Hcmd as [cm [l [k [Hmv [Hacc Htr]]]]].
              destruct (rel_step_chosen s S w (LCmd cm l) k _ to R Hamb1 Hmv (conj Hacc Hlit)
                          (proj2 (lrel_plain c (LCmd cm l) _ eq_refl) eq_refl) Htr) as [R1 _].
-             apply (IH to _ log1 R1 Hamb2 Hgs2).
+             apply (IH to _ log1 R1 Hamb2).
           -- assert (Hnm : ~ mid_expected en (moves S) w).
              { intros [a0 [k [Hin Hacc]]]. destruct a0 as [t0 d0 l0 | cm l0 | | x0 l0].
                - cbn in Hacc. discriminate.
@@ -674,7 +657,7 @@ Section All.
                 destruct a1; cbn in Ha, Hp; try discriminate.
                 destruct (rel_step_chosen s S w LAny k _ to R Hamb1 Hmv (conj Hlit Hnm)
                             (proj2 (lrel_plain c LAny _ eq_refl) eq_refl) Hst) as [R1 _].
-                apply (IH to _ log1 R1 Hamb2 Hgs2).
+                apply (IH to _ log1 R1 Hamb2).
              ++ exists log1. assert (E : step en S w = []).
                 { apply step_nil_intro. intros k Hk. apply step_spec in Hk. destruct Hk as [a0 [Hin Hch]].
                   destruct a0 as [t0 d0 l0 | cm l0 | | x0 l0]; cbn [chosen] in Hch.
@@ -921,7 +904,7 @@ Section All.
 
   (** *** the whole run *)
   Theorem run_meaning_all ws :
-    ambiguous_run en (start e) ws = false -> greedy_shadow e en ws = false ->
+    ambiguous_run en (start e) ws = false ->
     match complete e en ws p with
     | None => exists log, run_from Repaired (d_start d) a benv ws p = Ok (mkresult 1 [] log)
     | Some (req, al) =>
@@ -929,7 +912,7 @@ Section All.
                           /\ (forall x, In x reply <-> In x req) /\ incl req al
     end.
   Proof.
-    intros Hamb Hgs. destruct (walk_words ws (d_start d) (start e) [] rel_start Hamb Hgs) as [log1 Hw].
+    intros Hamb. destruct (walk_words ws (d_start d) (start e) [] rel_start Hamb) as [log1 Hw].
     unfold complete, run_from. destruct (run en (start e) ws) as [| k0 r0] eqn:Erun.
     - rewrite Hw. cbn [obind]. eexists. reflexivity.
     - destruct Hw as [t [Hwalk R]]. rewrite Hwalk. cbn [obind].
